@@ -156,28 +156,61 @@ type S struct {
 
 func (S) TableName() string { return "ss" }
 
+// U is the model with value-transforming field kinds: integer tracked-time
+// columns (seconds / milliseconds / nanoseconds, int64 and uint), serializer
+// fields, default values (literal and database function) and pointer fields.
+type U struct {
+	ID uint `gorm:"column:id;primaryKey"`
+	Cols
+	OtherID     uint              `gorm:"column:other_id"`
+	Other       *T2               `gorm:"foreignKey:OtherID"`
+	CreatedAt   int64             `gorm:"column:created_at"`
+	UpdatedAt   int64             `gorm:"column:updated_at;autoUpdateTime:milli"`
+	TouchedNano int64             `gorm:"column:touched_nano;autoUpdateTime:nano"`
+	MadeAt      uint              `gorm:"column:made_at;autoCreateTime"`
+	MadeMilli   int64             `gorm:"column:made_milli;autoCreateTime:milli"`
+	Tags        []string          `gorm:"column:tags;serializer:json"`
+	Meta        map[string]string `gorm:"column:meta;serializer:json"`
+	Stamp       int64             `gorm:"column:stamp;serializer:unixtime;type:datetime"`
+	Code        string            `gorm:"column:code;default:abc"`
+	Rank        int               `gorm:"column:rank;default:7"`
+	UID         string            `gorm:"column:uid;default:(lower(hex(randomblob(4))))"`
+	PInt        *int              `gorm:"column:p_int"`
+	PTime       *time.Time        `gorm:"column:p_time"`
+}
+
+func (U) TableName() string { return "us" }
+
 const (
 	ModelT = 0
 	ModelS = 1
+	ModelU = 2
 )
 
-var TableOf = []string{"ts", "ss"}
-var ModelName = []string{"T", "S"}
+var TableOf = []string{"ts", "ss", "us"}
+var ModelName = []string{"T", "S", "U"}
 
-// NewPtr returns &T{} / &S{}.
+// NewPtr returns &T{} / &S{} / &U{} (U with its serializer and pointer fields set).
 func NewPtr(m int) interface{} {
-	if m == ModelT {
+	switch m {
+	case ModelT:
 		return &T{}
+	case ModelS:
+		return &S{}
 	}
-	return &S{}
+	n := 3
+	return &U{Tags: []string{"a", "b'c"}, PInt: &n, Stamp: 1600000000}
 }
 
-// NewSlicePtr returns &[]T{} / &[]S{}.
+// NewSlicePtr returns &[]T{} / &[]S{} / &[]U{}.
 func NewSlicePtr(m int) interface{} {
-	if m == ModelT {
+	switch m {
+	case ModelT:
 		return &[]T{}
+	case ModelS:
+		return &[]S{}
 	}
-	return &[]S{}
+	return &[]U{}
 }
 
 // NewRec returns a pointer to a record whose column fields are set from the
@@ -234,6 +267,7 @@ func SchemaSQL() []string {
 	return []string{
 		"CREATE TABLE ts (id integer primary key autoincrement, " + c + ", other_id integer)",
 		"CREATE TABLE ss (id integer primary key autoincrement, " + c + ", other_id integer, created_at datetime, updated_at datetime, deleted_at datetime)",
+		"CREATE TABLE us (id integer primary key autoincrement, " + c + ", other_id integer, created_at integer, updated_at integer, touched_nano integer, made_at integer, made_milli integer, tags text, meta text, stamp datetime, code text default 'abc', rank integer default 7, uid text default (lower(hex(randomblob(4)))), p_int integer, p_time datetime)",
 		"CREATE TABLE t2 (id integer primary key autoincrement, name text, k1 text, " + strings.Join(q, ", ") + ")",
 	}
 }
@@ -241,10 +275,11 @@ func SchemaSQL() []string {
 // SeedSQL returns statements that put the tables into the pristine state.
 func SeedSQL() []string {
 	return []string{
-		"DELETE FROM ts", "DELETE FROM ss", "DELETE FROM t2",
+		"DELETE FROM ts", "DELETE FROM ss", "DELETE FROM us", "DELETE FROM t2",
 		"DELETE FROM sqlite_sequence",
 		"INSERT INTO t2 (id,name,k1) VALUES (1,'o1','k'),(2,'o2','k')",
 		"INSERT INTO ts (id,c10,c40,c41,other_id) VALUES (1,'r1','x',1,1),(2,'r2','y',2,2),(5,'r5','z',5,1)",
+		"INSERT INTO us (id,c10,c40,c41,other_id,created_at,updated_at,touched_nano,made_at,made_milli,tags,stamp,uid) VALUES (1,'r1','x',1,1,1500000000,1500000000000,1500000000000000000,1500000000,1500000000000,'[\"s\"]','2019-01-01 00:00:00+00:00','u1'),(2,'r2','y',2,2,1500000000,1500000000000,1500000000000000000,1500000000,1500000000000,'null','2019-01-01 00:00:00+00:00','u2'),(5,'r5','z',5,1,1500000000,1500000000000,1500000000000000000,1500000000,1500000000000,'null','2019-01-01 00:00:00+00:00','u5')",
 		"INSERT INTO ss (id,c10,c40,c41,other_id,created_at,updated_at,deleted_at) VALUES (1,'r1','x',1,1,'2019-01-01 00:00:00+00:00','2019-01-01 00:00:00+00:00',NULL),(2,'r2','y',2,2,'2019-01-01 00:00:00+00:00','2019-01-01 00:00:00+00:00',NULL),(5,'r5','z',5,1,'2019-01-01 00:00:00+00:00','2019-01-01 00:00:00+00:00',NULL),(6,'r6','w',6,1,'2019-01-01 00:00:00+00:00','2019-01-01 00:00:00+00:00','2019-06-01 00:00:00+00:00')",
 	}
 }
